@@ -78,14 +78,54 @@ def seq_tables(r, F):
                   "recovery keeps the highest sequence per hash: table (new<latest, =, >) -> overwrite %s" % (tab,),
                   "recovery dedup must keep the highest sequence per hash; got (new<latest,=,>) -> %s: after a restart an older copy (or a deleted one) wins" % (tab,), ln=c.ln)
     # 4. BlockRecoverRunner::run: a sequence regression stops the scan of the block
+    block_regression(r, F)
+
+
+def block_regression(r, F):
+    """within one block, an entry whose sequence is lower than the last entry recovered FROM THAT BLOCK (across blobs) ends the scan: blobs
+    left over from the block's previous life keep valid checksums (only the first page is wiped on reclaim)"""
     fn = F.fn("foyer_storage::engine::block::recover::BlockRecoverRunner::run::{closure#0}")
-    act = [b.idx for b in fn.calls_to(r"Vec::<T, A>::push$")]
-    found = tables.find_cmp(fn, tables.role_field("sequence", "EntryAddress"), lambda f, op: op.place is not None and backslice(f, op, "prov", extra_transparent=[r"Option::<T>::(map|unwrap_or)$"]).has_call(r"last$|Option::<T>::unwrap_or$"),
-                            "comparison of an entry's sequence with the last recovered one")
+    pushes = [b for b in fn.calls_to(r"Vec::<T, A>::push$")]
+    acc = set()
+    for b in pushes:
+        acc |= {l for l in backslice(fn, b.term.args[0], "prov").locals if "Vec<" in fn.local_ty(l) and "EntryInfo" in fn.local_ty(l)}
+    act = [b.idx for b in pushes]
+    if not acc:
+        raise AnchorMissing("BlockRecoverRunner::run: the per-block accumulator of recovered entries was not found")
+
+    nxt_blocks = [b.idx for b in fn.calls_to(r"scanner::BlockScanner::next$")]
+    in_scan_loop = fn.reachable(nxt_blocks)
+
+    def is_last_of_block(f, op):
+        """the compared value survives from blob to blob: it is read from the per-block accumulator, or it is a running variable that is
+        initialised before the scan loop (never re-initialised inside it) and updated from entry sequences"""
+        if op.place is None:
+            return False
+        sl = backslice(f, op, "dep", opaque=r"scanner::BlockScanner::next$")
+        if sl.locals & acc:
+            return True
+        for l in backslice(f, op, "prov").locals:
+            ds = [d for d in f.defs().get(l, []) if d[2] == "assign" and not f.blocks[d[0]].cleanup]
+            inits = [d for d in ds if d[3].rv.k == "use" and d[3].rv.ops[0].is_const()]
+            upd = [d for d in ds if d not in inits]
+            if inits and upd and all(d[0] not in in_scan_loop for d in inits) and \
+                    all(backslice(f, d[3].rv.ops[0], "prov").has_field("sequence", "EntryAddress") for d in upd if d[3].rv.ops):
+                return True
+        return False
+    try:
+        found = tables.find_cmp(fn, tables.role_field("sequence", "EntryAddress"), is_last_of_block, "comparison of an entry's sequence with the last one recovered from the block")
+    except AnchorMissing:
+        r.fail(fn, "entry?last -> keep", "the sequence-regression guard does not compare against the last entry recovered from the whole block (e.g. it is reset per "
+               "blob): a blob left over from the block's previous life, which still has a valid index checksum, is accepted after the current data ends", ln=fn.lo)
+        return
     for c, flipped in found:
         tab = tables.table(fn, c, flipped, act)
         r.require(tab[0] == "no" and tab[2] in ("yes", "maybe"), fn, "entry?last -> keep", "a regressing sequence ends the block's recovery: (entry<last,=,>) -> keep %s" % (tab,),
                   "a blob whose sequence regresses (stale data of a previous block generation) must stop the block scan; got (entry<last,=,>) -> keep %s" % (tab,), ln=c.ln)
+        # on the regression edge the whole block scan ends (no further BlockScanner::next)
+        nxt = [b.idx for b in fn.calls_to(r"scanner::BlockScanner::next$")]
+        lt_t = c.target("lt", flipped)
+        r.require(not (set(nxt) & fn.reachable([lt_t], avoid=[c.sw.idx])), fn, "regression -> stop scanning this block", "the scan of the block ends", "after a sequence regression the block is scanned further", ln=c.ln)
 
 
 def delete_sync(r, F):
@@ -95,6 +135,19 @@ def delete_sync(r, F):
     fa = fn.calls_to(r"atomic::Atomic::<u64>::fetch_add$")
     if len(it) != 1 or len(sub) != 1 or len(fa) != 1:
         raise AnchorMissing("BlockEngine::delete: insert_tombstone / submit / fetch_add not found exactly once")
+    # the only way out of delete() that skips the tombstone is the closed-engine test: from its `active` edge every path to return
+    # inserts the tombstone and submits it ("not indexed" does not mean "no disk-bound copy": a queued piece is indexed only when its write completes)
+    loads = [b for b in fn.calls_to(r"atomic::Atomic::<bool>::load$") if backslice(fn, b.term.args[0], "prov").has_field("active")]
+    start = 0
+    for l in loads[:1]:
+        for (swb, neg) in tables._bool_switches_on(fn, l.idx):
+            tt, ft = tables.bool_switch_targets(swb)
+            if neg:
+                tt, ft = ft, tt
+            start = tt
+    r.require(fn.must_pass(start, [it[0].idx]) and fn.must_pass(start, [sub[0].idx]), fn, "every delete on an open engine tombstones and logs",
+              "no early return between the closed-engine test and the tombstone", "BlockEngine::delete can return without inserting the tombstone / submitting it (an early return, e.g. for keys "
+              "that are `not indexed`): a remove that lands while the key's write is still queued is lost, and the removed value is indexed and served after the flush", ln=fn.lo)
     r.require(fn.dominates(it[0].idx, sub[0].idx) and fn.must_pass(0, [it[0].idx], [sub[0].idx]), fn, "insert_tombstone dom submit",
               "the index is tombstoned synchronously, before the delete is queued", "delete queues the tombstone without first marking the index: a lookup right after remove() still finds the disk copy", ln=it[0].term.ln)
     s1 = backslice(fn, it[0].term.args[2], "prov")
@@ -354,8 +407,8 @@ def queue_release(r, F):
 def run(chk, F):
     chk.run_rule("C01.load-order", "memory miss -> write queue (keeper) -> disk index; a keeper hit never goes to the engine", 3, common.load_order, F)
     chk.run_rule("C01.key-guard", "a disk hit is handed out only if the decoded key is equivalent to the requested key", 3, common.key_guard, F)
-    chk.run_rule("C01.seq-tables", "sequence comparisons of the index and of recovery follow the prescribed (older, equal, newer) tables", 4, seq_tables, F)
-    chk.run_rule("C01.delete-sync", "delete tombstones the index synchronously with the sequence it logs", 3, delete_sync, F)
+    chk.run_rule("C01.seq-tables", "sequence comparisons of the index and of recovery follow the prescribed (older, equal, newer) tables", 5, seq_tables, F)
+    chk.run_rule("C01.delete-sync", "delete tombstones the index synchronously with the sequence it logs, on every path of an open engine", 4, delete_sync, F)
     chk.run_rule("C01.queue-release", "the disk index is updated (after successful writes) before the write-queue references are released", 4, queue_release, F)
     chk.run_rule("C01.keeper-identity", "a write-queue reference removes only its own piece from the keeper", 1, keeper_identity, F)
     chk.run_rule("C01.reject-deletes", "an admission-rejected update deletes the older disk copy; accepted ones are registered then submitted", 3, reject_deletes, F)
